@@ -599,6 +599,7 @@ def eval_moves(ctx, c, outs):
     fails = []
     f = moves_input(c)
     o = frame_obs(f)
+    o0 = o
     n, m = f.shape
     op = c['op']
     drop = c['drop']
@@ -667,6 +668,13 @@ def eval_moves(ctx, c, outs):
             exp = ('ok', {'names': o['names'] + [ct(x) for x in cs], 'index': labels, 'columns': [o['columns'][i] for i in keep],
                           'rows': [[r[i] for i in keep] for r in o['rows']]})
         sel = js
+    # --- the frame the call was made on is what it was (labels of every depth, names, cells): moving columns into labels
+    # builds NEW labels, it does not extend the ones the source holds
+    o_after = frame_obs(f)
+    if o_after != o0:
+        fails.append(Failure('oracle', f'{op} on {c.get("col") or c.get("cols")}: the frame the call was made on changed: '
+                                       f'index {o_after["index"][:3]} names {o_after["names"]} (was {o0["index"][:3]} names {o0["names"]})', c))
+        return fails
     # --- first step vs reference and model
     if exp[0] == 'err':
         ctx.count(f'moves_expected_error_{exp[1]}')
